@@ -88,3 +88,14 @@ prop("C14",
      "Deviations are allowed only as per-back-end table entries with a reason (C++ frames streams at step level; MATLAB reverses the shape list).",
      "What the runtime routine named by a token does; byte-level layout (needs execution). Record field order is decided by rule G3.",
      COMMON_ASSUME + ["the template→token tables in plan.go name the runtime routines correctly (cross-checked against the runtime files by the C03 link rule)"])
+
+prop("C02",
+     "Structural clauses of NDJSON round trip: (J1) the JSON-kind table GetJsonDataType, extracted from source, covers all 18 primitives, enum, "
+     "flags, record and every container and contains at least the kinds the documented mapping writes (refs/jsonkinds.json from "
+     "docs/reference/ndjson.md) — an under-approximation makes an ambiguous union go untagged; (JK) the kinds the Python runtime converters "
+     "can return (abstract evaluation of every to_json/numpy_to_json return over the python AST) are within the documented kinds; (J2) both "
+     "NDJSON generators decide tagged/untagged with the same overlap procedure over GetJsonDataType; (J3) the emitted reader-side type "
+     "tests pair each kind with the right test; (O1) python record converters omit a null field on write and tolerate its absence on read "
+     "under one and the same guard, which looks through aliases; (PN1) the Python line reader distinguishes a null value from an absent step.",
+     "Numeric fidelity, key order, the C++ NDJSON runtime headers (nlohmann/json is not installed, so they cannot be parsed), value equality after a round trip.",
+     COMMON_ASSUME + ["refs/jsonkinds.json transcribes docs/reference/ndjson.md correctly"])
